@@ -64,4 +64,30 @@ theorem transform_back (S1 SS : Mat α n) (R : Tens α n)
     transformTwoPass SS S1 (transformTwoPass S1 SS R) = R := by
   rw [transformTwoPass_eq, transformTwoPass_eq, pass1_pass2_comm, pass1_back S1 SS R h3, pass2_back S1 SS R h3]
 
+/-- two sandwiches in a row are the sandwich with the products (no hypothesis) -/
+theorem sandwich_comp (S1 SS S1' SS' A : Mat α n) :
+    sandwich S1' SS' (sandwich S1 SS A) = sandwich (matMul S1' S1) (matMul SS SS') A := by
+  have hin : Matrix.of (sandwich S1 SS A) = Matrix.of S1 * (Matrix.of A * Matrix.of SS) := by
+    ext i j; simp [sandwich_eq]
+  have hl : Matrix.of (matMul S1' S1) = Matrix.of S1' * Matrix.of S1 := by ext i j; simp [matMul_eq_mul]
+  have hr : Matrix.of (matMul SS SS') = Matrix.of SS * Matrix.of SS' := by ext i j; simp [matMul_eq_mul]
+  funext a b
+  rw [sandwich_eq, hin, sandwich_eq, hl, hr]
+  simp only [Matrix.mul_assoc]
+
+/-- **nested basis contexts compose**: transforming with `(S1, SS)` and then with `(S1', SS')` is the transformation
+with the products - the group-action law that the C04 invariant proof assumes of every managed object, here for
+four-index tensors (every tensor, every dimension, no hypothesis on the matrices) -/
+theorem transform_comp (S1 SS S1' SS' : Mat α n) (R : Tens α n) :
+    transformTwoPass S1' SS' (transformTwoPass S1 SS R) = transformTwoPass (matMul S1' S1) (matMul SS SS') R := by
+  have p1 : ∀ X : Tens α n, pass1 S1' SS' (pass1 S1 SS X) = pass1 (matMul S1' S1) (matMul SS SS') X := by
+    intro X; funext a b c d
+    show sandwich S1' SS' (sandwich S1 SS (fun a b => X a b c d)) a b = _
+    rw [sandwich_comp]; rfl
+  have p2 : ∀ X : Tens α n, pass2 S1' SS' (pass2 S1 SS X) = pass2 (matMul S1' S1) (matMul SS SS') X := by
+    intro X; funext a b c d
+    show sandwich S1' SS' (sandwich S1 SS (fun c d => X a b c d)) c d = _
+    rw [sandwich_comp]; rfl
+  rw [transformTwoPass_eq, transformTwoPass_eq, transformTwoPass_eq, pass1_pass2_comm, p1, p2]
+
 end QV.Prop
